@@ -206,9 +206,11 @@ class Definition:
         # Turns out that no one knows if the wsdl import statement is
         # transitive or not. WSDL/SOAP specs are awesome... So lets just do it.
         # TODO: refactor me into something more sane
+        # Guard against cyclic imports per definition (not per namespace, since
+        # one namespace is often split over a chain of imported documents)
         _processed = _processed or set()
-        if self.target_namespace not in _processed:
-            _processed.add(self.target_namespace)
+        if id(self) not in _processed:
+            _processed.add(id(self))
             for definition in self.imports.values():
                 try:
                     return definition.get(name, key, _processed)
